@@ -1219,6 +1219,31 @@ class Evaluator:
                 return taken
             if known == negate(c):
                 return not taken
+        return self.positive_sum(c)
+
+    def positive_sum(self, c):
+        """`a1 + a2 + ... > 0` (as lt0 of the negated sum) over quantities that are non-negative by construction is TRUE on a path that knows one
+        of the summands to be positive (`len(pos) != 0`, an assumed `Ep > 0`): decides the guard of `q if total > 0 else default`."""
+        from .terms import _nonneg_poly
+        if not (isinstance(c, App) and c.fn == "lt0" and c.args):
+            return None
+        p = to_poly(neg(c.args[0]))
+        if p is None or p.const_value() != 0 or not p.t or not _nonneg_poly(p) or not all(len(m) == 1 and m[0][1] == 1 for m in p.t):
+            return None
+        facts = [(k, t) for k, t in self.pc] + [(a, True) for a in self.assume]
+        for m in p.t:
+            a = m[0][0]
+            for k, t in facts:
+                if not (isinstance(k, App) and k.args):
+                    continue
+                pk = to_poly(k.args[0])
+                if pk is None:
+                    continue
+                pa = to_poly(a)
+                if k.fn == "eq0" and not t and pk.t == pa.t:
+                    return True          # a != 0 and a >= 0
+                if k.fn == "lt0" and t and pk.t == (-pa).t:
+                    return True          # -a < 0
         return None
 
     def mergeable_if(self, st, fr=None):
